@@ -15,6 +15,7 @@ import (
 
 	"verif/mc/enum"
 	"verif/mc/exact"
+	"verif/mc/geomgen"
 	"verif/mc/report"
 )
 
@@ -343,6 +344,48 @@ func runCase(c Case, cat []shp) {
 					rep.Violation(sig("membership-differs"), det(bad))
 				}
 			}
+			// memory layout: both operands with their rings cut from one flat
+			// vertex buffer each (spare capacity reaching into the next ring):
+			// same result areas, buffers not written
+			if c.Affine == 0 && ta != "Bounds" && tb != "Bounds" && (c.A+c.B+int(c.DX/1000)+int(c.DY/1000))%3 == 0 {
+				fa2, wa := geomgen.FlatBacked(a.(geom.Geom))
+				fb2, wb := geomgen.FlatBacked(b.(geom.Geom))
+				var kept [4]geom.Polygonal
+				var keptArea [4]float64
+				defer func() {
+					// results handed out earlier must survive the later calls
+					for op := 0; op < 4; op++ {
+						if kept[op] != nil && !isNil(kept[op]) {
+							if again := exact.Area(resultRegion(kept[op])); again != keptArea[op] {
+								rep.Violation(fmt.Sprintf("%s|%s,%s|%s|result-changed-by-later-operations", opNames[op], ta, tb, class), map[string]interface{}{"case": c, "area_when_returned": keptArea[op], "area_after_later_calls": again})
+							}
+						}
+					}
+				}()
+				for op := 0; op < 4; op++ {
+					atomic.AddInt64(&nOps, 1)
+					var res geom.Polygonal
+					sig := func(sym string) string {
+						return fmt.Sprintf("%s|%s,%s|%s|flat-buffer-operands|%s", opNames[op], ta, tb, class, sym)
+					}
+					det := func(extra string) map[string]interface{} {
+						return map[string]interface{}{"case": c, "a": fmt.Sprintf("%s %v", sa.Name, a), "b": fmt.Sprintf("%s %v", sb.Name, b), "result": fmt.Sprintf("%v", res), "true_area": want[op], "observed": extra}
+					}
+					if p := try(func() { res = apply(op, fa2.(geom.Polygonal), fb2.(geom.Polygonal)) }); p != "" {
+						rep.Violation(sig("panic"), det(p))
+						break
+					}
+					if w := wa() + wb(); w != "" {
+						rep.Violation(sig("caller-buffer-written"), det(w))
+						break
+					}
+					got := exact.Area(resultRegion(res))
+					kept[op], keptArea[op] = res, got
+					if math.Abs(got-want[op]) > 1e-9*math.Max(1, want[op]) {
+						rep.Violation(sig("area-differs"), det(fmt.Sprintf("region area of the result %.12g", got)))
+					}
+				}
+			}
 		}
 	}
 }
@@ -369,7 +412,7 @@ func main() {
 		return
 	}
 	rep = report.New("C01", tier, "model_checking")
-	rep.Rule = "E1: operand catalogue (9 (36) axis-aligned boxes, 2 triangles, L, C, pentagon, box with 1 and 2 holes, two disjoint boxes, box + box-with-hole, island inside a hole, box with a U-shaped hole) in both windings for A and B, B translated by every vector of a 4x4 (8x8) odd-integer grid + (0.37,0.41), every receiver/argument cast {Polygon, MultiPolygon, *Bounds} x {Intersection, Union, Difference, XOr}; the catalogue pairs again under 3 affine maps with non-representable coefficients (rotation by 30 deg, shear+scale, reflection; areas scale by |det|, references on the integer pre-images); pairs not in general position (exact integer test) are skipped and counted. Oracle: even-odd membership of ~2400 lattice points with an exactly verified 0.05 margin must equal the boolean combination; region area of the result (slab decomposition) must equal the slab-decomposition area of the true region (rel 1e-9); rings closed for Polygon/MultiPolygon receivers; empty result only if the true area is 0. Non-trivial = operand pairs that cross or nest."
+	rep.Rule = "E1: operand catalogue (9 (36) axis-aligned boxes, 2 triangles, L, C, pentagon, box with 1 and 2 holes, two disjoint boxes, box + box-with-hole, island inside a hole, box with a U-shaped hole) in both windings for A and B, B translated by every vector of a 4x4 (8x8) odd-integer grid + (0.37,0.41), every receiver/argument cast {Polygon, MultiPolygon, *Bounds} x {Intersection, Union, Difference, XOr}; a third of the pairs again with both operands cut from flat vertex buffers (same areas, buffers not written, earlier results intact after later operations); the catalogue pairs again under 3 affine maps with non-representable coefficients (rotation by 30 deg, shear+scale, reflection; areas scale by |det|, references on the integer pre-images); pairs not in general position (exact integer test) are skipped and counted. Oracle: even-odd membership of ~2400 lattice points with an exactly verified 0.05 margin must equal the boolean combination; region area of the result (slab decomposition) must equal the slab-decomposition area of the true region (rel 1e-9); rings closed for Polygon/MultiPolygon receivers; empty result only if the true area is 0. Non-trivial = operand pairs that cross or nest."
 	cat := catalogue(tier)
 	offs := []int64{-7, -3, 1, 5}
 	if tier == "thorough" {
